@@ -519,4 +519,84 @@ instance (ss pl pre post) : Decidable (TeamMutStep ss pl pre post) := by
 instance (lhs rhs post) : Decidable (TeamCrossStep lhs rhs post) := by
   unfold TeamCrossStep; infer_instance
 
+/-! ## Provenance and histories (the vocabulary of the closure theorems) -/
+
+/-- every gene of `post` is the gene `frm` or `to` has at the same locus -/
+def Pointwise (frm to post : Ind) : Prop :=
+  ∀ i, i < frm.rows → ∀ c, c < frm.cols →
+    post.gene i c = frm.gene i c ∨ post.gene i c = to.gene i c
+
+
+/-- individuals reachable from randomly created ones by any sequence of the public genetic
+    operations (each operation as the step relation the driver decides on real executions) -/
+inductive Reachable (ss : SymSet) (rows : Nat) : Ind → Prop
+  | random {pl : Nat} {post : Ind} : pl < rows → RandomStep ss rows pl post → Reachable ss rows post
+  | mutation {pl : Nat} {pre post : Ind} :
+      Reachable ss rows pre → pl < rows → MutStep ss pl pre post → Reachable ss rows post
+  | crossover {lhs rhs post : Ind} :
+      Reachable ss rows lhs → Reachable ss rows rhs → CrossStep lhs rhs post → Reachable ss rows post
+  | getBlock {pre post : Ind} {l : Locus} :
+      Reachable ss rows pre → Inside pre l → GetBlockStep pre l post → Reachable ss rows post
+  | destroyBlock {pre post : Ind} {idx : Nat} :
+      Reachable ss rows pre → DestroyStep ss pre idx post → Reachable ss rows post
+  | replace {pre post : Ind} {l : Locus} {g : Gene} :
+      Reachable ss rows pre → Compatible ss pre l g → ReplaceStep pre l g post → Reachable ss rows post
+  | cse {pre post : Ind} : Reachable ss rows pre → CseStep pre post → Reachable ss rows post
+  | incAge {pre post : Ind} : Reachable ss rows pre → IncAgeStep pre post → Reachable ss rows post
+
+
+/-- teams reachable from randomly created ones -/
+inductive TReachable (ss : SymSet) (rows : Nat) : Team → Prop
+  | random {pl : Nat} {post : Team} : pl < rows → TeamRandomStep ss rows pl post → TReachable ss rows post
+  | ofMembers {t : Team} : (∀ x ∈ t, Reachable ss rows x) → TReachable ss rows t
+  | mutation {pl : Nat} {pre post : Team} :
+      TReachable ss rows pre → pl < rows → TeamMutStep ss pl pre post → TReachable ss rows post
+  | crossover {lhs rhs post : Team} :
+      TReachable ss rows lhs → TReachable ss rows rhs → rhs.length = lhs.length →
+      TeamCrossStep lhs rhs post → TReachable ss rows post
+
+
+/-- individuals produced by any finite sequence of the model operators, every draw being an
+    arbitrary value allowed by the contract of the random primitive that produces it -/
+inductive ReachableF (ss : SymSet) (rows : Nat) : Ind → Prop
+  | random {pl xo : Nat} {d : Nat → Nat → GDraw} : pl < rows → xo < 4 →
+      (∀ i, i < rows → ∀ c, c < ss.cats → DrawOK ss rows pl i c (d i c)) →
+      ReachableF ss rows (randomInd ss rows pl xo d)
+  | mutation {x : Ind} {pl : Nat} {eqv : Gene → Gene → Bool} {bern : Nat → Nat → Bool}
+      {d : Nat → Nat → GDraw} : ReachableF ss rows x → pl < rows →
+      (∀ i, i < x.rows → ∀ c, c < x.cols → DrawOK ss x.rows pl i c (d i c)) →
+      ReachableF ss rows (mutation ss pl eqv bern d x).1
+  | crossover {x y : Ind} {d : XDraw} : ReachableF ss rows x → ReachableF ss rows y →
+      XDrawOK (if d.b then y else x) d → ReachableF ss rows (crossover x y d)
+  | getBlock {x : Ind} {l : Locus} : ReachableF ss rows x → Inside x l →
+      ReachableF ss rows (getBlock x l)
+  | destroyBlock {x : Ind} {idx : Nat} {d : Nat → GDraw} : ReachableF ss rows x →
+      (∀ c, c < x.cols → TDrawOK ss c (d c)) → ReachableF ss rows (destroyBlock ss x idx d)
+  | replace {x : Ind} {l : Locus} {g : Gene} : ReachableF ss rows x → Compatible ss x l g →
+      ReachableF ss rows (replace x l g)
+  | cse {x : Ind} : ReachableF ss rows x → ReachableF ss rows (cse x)
+  | incAge {x : Ind} : ReachableF ss rows x → ReachableF ss rows (incAge x)
+
+
+/-- teams produced by any finite sequence of the model team operators -/
+inductive TReachableF (ss : SymSet) (rows : Nat) : Team → Prop
+  | random {pl n : Nat} {xo : Nat → Nat} {d : Nat → Nat → Nat → GDraw} : pl < rows →
+      (∀ k, k < n → xo k < 4 ∧
+        ∀ i, i < rows → ∀ c, c < ss.cats → DrawOK ss rows pl i c (d k i c)) →
+      TReachableF ss rows (teamRandom ss rows pl xo d n)
+  | ofMembers {t : Team} : (∀ x ∈ t, ReachableF ss rows x) → TReachableF ss rows t
+  | mutation {t : Team} {pl : Nat} {eqv : Gene → Gene → Bool} {bern : Nat → Nat → Nat → Bool}
+      {d : Nat → Nat → Nat → GDraw} : TReachableF ss rows t → pl < rows →
+      (∀ k, k < t.length → ∀ i, i < (t.getD k teamMutation.default_ind).rows →
+        ∀ c, c < (t.getD k teamMutation.default_ind).cols →
+          DrawOK ss (t.getD k teamMutation.default_ind).rows pl i c (d k i c)) →
+      TReachableF ss rows (teamMutation ss pl eqv bern d t).1
+  | crossover {lhs rhs : Team} {d : Nat → XDraw} : TReachableF ss rows lhs →
+      TReachableF ss rows rhs → rhs.length = lhs.length →
+      (∀ k, k < lhs.length →
+        XDrawOK (if (d k).b then rhs.getD k teamMutation.default_ind
+                 else lhs.getD k teamMutation.default_ind) (d k)) →
+      TReachableF ss rows (teamCrossover lhs rhs d)
+
+
 end Vita.C02
